@@ -25,3 +25,18 @@ impl<'a, P> IteratorSpecImpl for AggregatedGensIter<'a, P> {
     open spec fn decrease(&self) -> Option<nat> { Some(self.rem().len()) }
     open spec fn peek(&self, index: int) -> Option<&'a P> { if 0 <= index < self.rem().len() { Some(self.rem()[index]) } else { None } }
 }
+// length of the party-major walk over a well-shaped grid
+pub proof fn lemma_walk_len<'a, P>(array: &'a Vec<Vec<P>>, n: usize, m: usize, p: int, g: int)
+    requires 0 <= p <= m, 0 <= g <= n, n >= 1
+    ensures AggregatedGensIter::walk(array, n, m, p, g).len() == (if p >= m { 0 } else { (m - p) * n - g })
+    decreases m - p, n - g
+{
+    reveal_with_fuel(AggregatedGensIter::walk, 2);
+    if p >= m {
+    } else if g >= n {
+        lemma_walk_len(array, n, m, p + 1, 0);
+        assert((m - p) * n - n == (m - (p + 1)) * n) by(nonlinear_arith);
+    } else {
+        lemma_walk_len(array, n, m, p, g + 1);
+    }
+}
